@@ -28,3 +28,13 @@ pub fn node_geometry(node: &stat::ResourceNode) -> (u32, u32, u32, u32) {
 pub fn node_array(node: &stat::ResourceNode) -> Arc<stat::BucketLeapArray> {
     node.arr.clone()
 }
+
+/// `MetricItem`'s resource name is crate-private and cannot be given through `from_string` when it contains
+/// the field separator: accessors for the round-trip check of metric lines.
+pub fn set_metric_item_resource(item: &mut crate::base::MetricItem, resource: &str) {
+    item.resource = resource.to_string();
+}
+
+pub fn metric_item_resource(item: &crate::base::MetricItem) -> String {
+    item.resource.clone()
+}
